@@ -10,6 +10,7 @@ EXPLANATION = (
     "select() returns a non-empty selection only under max >= minimum_agreeing_sources and max*4 > bounds.len() (two bounds "
     "per voter: strict majority); voters exclude periodic, too-uncertain and unsynchronised sources; the returned set is "
     "filtered on uncertainty, interval overlap and synchronisation."
+    ' The usable flag of a source has two writers only (inserted false, source_update stores its argument); storing a snapshot never touches it.'
 )
 NOT_DECIDED = ["correctness of the interval sweep on ties/touching intervals (value semantics)", "numeric radius computation"]
 
